@@ -114,11 +114,13 @@ def showCnt (r : Nat × List Nat) : String := s!"{r.1};{showNats r.2}"
 def hCountPrefixes : List String → String → Res
   | [keys, s, e, m], impl => do
     let keys ← pBytesList keys; let s ← pNat s; let e ← pNat e; let m ← pNat m
+    let model := showOpt showCnt (sbCountPrefixes keys s e m)
+    if e - s > 60 then some (model, "na") else    -- the naive distinct count is quadratic
     let sub := (keys.drop s).take (e - s)
     let fds := List.zipWith fdSpec sub sub.tail
     let m0 := fds.foldl min (fds.headD 0)
     let cs := (List.range m).map fun i => distinctCount (sub.map (truncBits (m0 + i)))
-    some (showOpt showCnt (sbCountPrefixes keys s e m), if sub.length > 60 then "na" else verdictEq (showCnt (m0, cs)) impl)
+    some (model, verdictEq (showCnt (m0, cs)) impl)
   | _, _ => none
 
 /-! C17 -/
